@@ -14,6 +14,9 @@ From Coq Require Import Lia ZifyBool.
 Definition hostingp (p : path) : bool := last_z p =? HOSTING.
 Definition nh (T : ptable) : nat := List.length (filter (fun e => hostingp (snd e)) T).
 
+Lemma nh_le_length T : (nh T <= List.length T)%nat.
+Proof. unfold nh. induction T as [|e r IH]; simpl; [lia|]. destruct (hostingp (snd e)); simpl; lia. Qed.
+
 Lemma nh_remove_le T p : (nh (remove_path T p) <= nh T)%nat.
 Proof.
   unfold nh, remove_path. induction T as [|e r IH]; simpl; [lia|].
@@ -327,7 +330,7 @@ Section Variant.
   Proof. intros A H. apply A in H. unfold is_agent, HOSTING in H. lia. Qed.
 
   (* on_replicate_request *)
-  Lemma on_request_var me s b sp rq T V c fp count hosts evs :
+  Lemma on_request_var me s b sp (rq : path) T V c fp count hosts evs :
     tinv V T (hd (-2) rq) -> rq_ok rq -> (forall x, In x (removelast rq) -> In x V) ->
     (exists e, In e T /\ is_prefix rq (snd e) = true /\ fst e <= b + sp) ->
     forall d m, In (d, m) (snd (fst (fst (on_request C me s b sp rq T V c fp count hosts evs)))) ->
@@ -450,7 +453,7 @@ Section Variant.
   Proof. unfold computation_replicated. destruct (zlookup c (s_inprog s)); reflexivity. Qed.
 
   (* on_replicate_answer *)
-  Lemma on_answer_var me s b sp rq T V c fp count hosts evs pre sd :
+  Lemma on_answer_var me s b sp (rq : path) T V c fp count hosts evs pre sd :
     tinv V T (hd (-2) rq) -> rq_ok rq -> (forall x, In x rq -> In x V) -> rq = pre ++ [me; sd] ->
     forall d m, In (d, m) (snd (fst (fst (on_answer C me s b sp rq T V c fp count hosts evs)))) ->
       mok3 d m /\ (Phi m < W * mu V T + (2 * na + List.length rq))%nat.
@@ -482,7 +485,8 @@ Section Variant.
       + eapply ANS; eauto.
       + rewrite computation_replicated_outs in I. destruct I.
     - pose proof (visit_loop_var me ini (Some rq) b sp V c fp (S (List.length T)) 0 s T count hosts evs (tinv_nomid _ _ _ TI)) as VL.
-      destruct (visit_loop C (S (List.length T)) 0 me ini (Some rq) b sp V c fp s T count hosts evs) as [r|s3 T3 c3 h3 e3]; simpl in VL.
+      cbv zeta in I. revert I VL.
+      destruct (visit_loop C (S (List.length T)) 0 me ini (Some rq) b sp V c fp s T count hosts evs) as [r|s3 T3 c3 h3 e3]; intros I VL; simpl in VL.
       + destruct VL as [(x & T' & s' & c' & h' & e' & -> & (S' & N' & Hx & (cost & tl & Ie & Af)))|[(T' & s' & c' & h' & e' & -> & (S' & N'))|E0]].
         * destruct (send_request_outs _ _ _ _ _ _ _ _ _ _ _ _ _ _ I) as (b' & sp' & -> & Eb). simpl.
           assert (TI' : tinv V T' (hd (-2) rq)) by (eapply tinv_subset; eauto).
@@ -525,5 +529,212 @@ Section Variant.
         split; auto. simpl in M2. rewrite Li. simpl.
         assert (MU : (mu V T3 <= mu V T)%nat) by (unfold mu; lia).
         pose proof (Nat.mul_le_mono_l _ _ W MU). lia.
+  Qed.
+
+  (* ---- replicate(k): the initial tokens *)
+  Lemma is_nbr_irrefl me : is_nbr C me me = false.
+  Proof.
+    unfold is_nbr. induction (a_comps (agent C me)) as [|x r IH]; simpl; auto. rewrite IH, orb_false_r.
+    induction (snd x) as [|nb l IHl]; simpl; auto. rewrite IHl, orb_false_r. destruct (owns C me nb); reflexivity.
+  Qed.
+
+  Lemma neighbors_ne me n r : In (n, r) (neighbors C me) -> n <> me.
+  Proof.
+    unfold neighbors. intros H E. apply in_map_iff in H as [j [Ej H]]. inversion Ej; subst.
+    apply filter_In in H as [_ H]. rewrite is_nbr_irrefl in H. discriminate.
+  Qed.
+
+  Lemma initial_tinv me : is_agent C me = true ->
+    tinv [me] (psort (map (fun nr => (snd nr, [me; fst nr])) (neighbors C me))) me.
+  Proof.
+    intros Ame. split; [constructor; [intros []|constructor]|]. split; [intros x [<-|[]]; exact Ame|]. split.
+    - intros e He. apply (proj1 (psort_In _ _)) in He. apply in_map_iff in He as [[n r] [<- Hn]]. simpl.
+      pose proof (neighbors_ne me n r Hn) as Ne. apply (neighbors_spec C me Ame) in Hn as [An _].
+      split; [constructor; [intros [H|[]]; congruence|constructor; [intros []|constructor]]|].
+      split; [intros x [<-|[]]; left; reflexivity|]. split; [|eauto].
+      intros _. unfold last_z. simpl. split; [intros [H|[]]; congruence|exact An].
+    - intros e1 e2 H1 H2 _ _ L. apply (proj1 (psort_In _ _)) in H1, H2.
+      apply in_map_iff in H1 as [[n1 r1] [<- _]]. apply in_map_iff in H2 as [[n2 r2] [<- _]].
+      simpl in *. unfold last_z in L. simpl in L. congruence.
+  Qed.
+
+  Lemma replicate_loop_mok3 me k : is_agent C me = true -> forall comps s outs evs,
+    (forall d m, In (d, m) outs -> mok3 d m) ->
+    forall d m, In (d, m) (snd (fst (fst (replicate_loop C me k comps s outs evs)))) -> mok3 d m.
+  Proof.
+    intros Ame. induction comps as [|x rest IH]; intros s outs evs HO d m; simpl; [apply HO|].
+    pose proof (initial_tinv me Ame) as TI. set (paths := psort _) in *.
+    destruct paths as [|[c0 q0] r0] eqn:Ep; [apply HO|]. rewrite <- Ep in *.
+    assert (RQ : rq_ok [me]).
+    { split; [constructor; [intros []|constructor]|]. split; [discriminate|]. intros y [<-|[]]. exact Ame. }
+    assert (EX : exists e, In e paths /\ is_prefix [me] (snd e) = true /\ fst e <= min_cost r0 c0 + 0).
+    { destruct (min_entry c0 q0 r0) as (cost & p & Ip & Le). rewrite <- Ep in Ip. exists (cost, p). split; auto.
+      split; [|simpl; lia]. destruct TI as (_ & _ & D & _). destruct (D _ Ip) as (_ & _ & _ & (tl & Etl)).
+      simpl in *. rewrite Etl. simpl. rewrite Z.eqb_refl. reflexivity. }
+    pose proof (on_request_var me s (min_cost r0 c0) 0 [me] paths [me] (comp_name x) (comp_fp x) k [] evs TI RQ
+                  (fun y (H : In y []) => False_ind _ H) EX) as OR.
+    destruct (on_request C me s (min_cost r0 c0) 0 [me] paths [me] (comp_name x) (comp_fp x) k [] evs) as [[[s1 o1] e1] raised].
+    simpl in OR.
+    assert (HO' : forall d0 m0, In (d0, m0) (outs ++ o1) -> mok3 d0 m0).
+    { intros d0 m0 I. apply in_app_or in I as [I|I]; auto. apply OR. exact I. }
+    destruct raised; simpl; [apply HO'|apply IH; exact HO'].
+  Qed.
+
+  Lemma replicate_mok3 me s k : is_agent C me = true ->
+    forall d m, In (d, m) (snd (fst (fst (replicate C me s k)))) -> mok3 d m.
+  Proof.
+    intros Ame. unfold replicate. destruct (a_comps (agent C me)) as [|x0 r0]; [intros d m []|].
+    destruct (neighbors C me) eqn:En; [intros d m []|].
+    apply replicate_loop_mok3; auto. intros d m [].
+  Qed.
+
+  (* ---- the protocol handler: invariant and variant *)
+  Lemma ucs_recv_var n s src m : mok3 n m ->
+    forall d m', In (d, m') (snd (fst (ucs_recv C n s src m))) ->
+      mok3 d m' /\ (forall t, tok_of m = Some t -> (Phi m' < Phi m)%nat).
+  Proof.
+    intros MO d m' I. unfold ucs_recv in I. destruct (is_agent C n) eqn:Ea; cbn [negb] in I; cbv beta iota in I; [|destruct I].
+    destruct m as [k|t|t]; simpl in MO.
+    - split; [|intros t T; discriminate].
+      pose proof (replicate_mok3 n s k Ea d m') as R.
+      destruct (replicate C n s k) as [[[s' o] e] b]. simpl in *. auto.
+    - destruct MO as (TI & RQ & SUB & EX).
+      pose proof (on_request_var n s (t_budget t) (t_spent t) (t_path t) (t_paths t) (t_visited t) (t_comp t) (t_fp t)
+                    (t_count t) (t_hosts t) [] TI RQ SUB EX d m') as OR.
+      destruct (on_request _ _ _ _ _ _ _ _ _ _ _ _ _) as [[[s' o] e] b]. simpl in *.
+      destruct (OR I) as [M1 M2]. split; auto.
+    - destruct MO as (TI & RQ & SUB & (pre & sd & E)).
+      match type of I with context [on_answer C n ?s0 _ _ _ _ _ _ _ _ _ _] =>
+        pose proof (on_answer_var n s0 (t_budget t) (t_spent t) (t_path t) (t_paths t) (t_visited t) (t_comp t) (t_fp t)
+                      (t_count t) (t_hosts t) [] pre sd TI RQ SUB E d m') as OA;
+        destruct (on_answer C n s0 (t_budget t) (t_spent t) (t_path t) (t_paths t) (t_visited t) (t_comp t) (t_fp t)
+                      (t_count t) (t_hosts t) []) as [[[s' o] e] b] end.
+      simpl in *. destruct (OA I) as [M1 M2]. split; auto.
+  Qed.
+
+  (* ---- every token in flight of every reachable configuration satisfies the invariant *)
+  Notation P := (ucs_proto C).
+  Definition Inv3 (cf : config nstate msg) : Prop :=
+    (forall s d m, In m (chan cf s d) -> mok3 d m) /\
+    (forall d s m, In (s, m) (w_held (nodes cf d)) -> mok3 d m).
+
+  Lemma step_inv3 cf a : Inv3 cf -> Inv3 (fst (step P cf a)).
+  Proof.
+    intros (IC & IH). destruct a as [n|s d]; simpl.
+    - destruct (w_running (nodes cf n)) eqn:Er; [split; auto|].
+      change (p_start P n (w_st (nodes cf n))) with (ucs_start C n (w_st (nodes cf n))).
+      assert (SO : forall d m, In (d, m) (snd (fst (ucs_start C n (w_st (nodes cf n))))) -> mok3 d m).
+      { unfold ucs_start. destruct (n =? ORCH); simpl; [|intros d m []].
+        intros d m I. apply in_map_iff in I as [a [E _]]. inversion E; subst. exact I. }
+      destruct (ucs_start C n (w_st (nodes cf n))) as [[st' outs] evs]. simpl in *. split.
+      + intros s d m I. apply In_reinject_all in I as [I|[E I]].
+        * apply In_send_all in I as [I|[E I]]; eauto.
+        * subst. unfold reinject in I. eauto.
+      + intros d s m. simpl. unfold upd_node. cbv beta. destruct (d =? n); simpl; intros I; [destruct I|eauto].
+    - destruct (chan cf s d) as [|m q] eqn:Ech; [split; auto|].
+      assert (MOK : mok3 d m) by (apply (IC s d); rewrite Ech; left; auto).
+      assert (C0 : forall x y m', In m' (upd_chan (chan cf) s d q x y) -> mok3 y m').
+      { intros x y m' I. apply In_upd_chan in I as [(E1 & E2 & I)|I]; [subst|eauto].
+        apply (IC s d). rewrite Ech. right; auto. }
+      destruct (w_running (nodes cf d)) eqn:Er.
+      + change (p_recv P d (w_st (nodes cf d)) s m) with (ucs_recv C d (w_st (nodes cf d)) s m).
+        pose proof (ucs_recv_var d (w_st (nodes cf d)) s m MOK) as R.
+        destruct (ucs_recv C d (w_st (nodes cf d)) s m) as [[st' outs] evs]. simpl in *. split.
+        * intros x y m' I. apply In_send_all in I as [I|[E I]]; [eauto|]. apply (R y m' I).
+        * intros y x m'. simpl. unfold upd_node. cbv beta. destruct (y =? d) eqn:Ey; simpl; intros I; [|eauto].
+          apply Z.eqb_eq in Ey. subst. eauto.
+      + simpl. split; [eauto|].
+        intros y x m'. simpl. unfold upd_node. cbv beta. destruct (y =? d) eqn:Ey; simpl; intros I; [|eauto].
+        apply Z.eqb_eq in Ey. subst. apply in_app_or in I as [I|[I|[]]]; [eauto|].
+        inversion I; subst. exact MOK.
+  Qed.
+
+  Lemma reachable_inv3 cf : reachable P cf -> Inv3 cf.
+  Proof.
+    induction 1 as [|cf a R IH]; [split; [intros s d m []|intros d s m []]|]. apply step_inv3; auto.
+  Qed.
+
+  (* the variant: whenever the token at the head of a channel of a reachable configuration is
+     handled (in whatever state of the receiving agent), the token it emits is strictly smaller *)
+  Lemma ucs_token_variant_l cf s d m q t :
+    reachable P cf -> chan cf s d = m :: q -> tok_of m = Some t ->
+    forall st src d' m', In (d', m') (snd (fst (ucs_recv C d st src m))) -> (Phi m' < Phi m)%nat.
+  Proof.
+    intros R Ech T st src d' m' I. destruct (reachable_inv3 cf R) as [IC _].
+    assert (MOK : mok3 d m) by (apply (IC s d); rewrite Ech; left; auto).
+    destruct (ucs_recv_var d st src m MOK d' m' I) as [_ H]. eauto.
+  Qed.
+
+  (* the measure of a token is bounded by a function of the number of agents *)
+  Lemma Phi_bound cf s d m : reachable P cf -> In m (chan cf s d) ->
+    (Phi m <= W * (2 * na + List.length (match tok_of m with Some t => t_paths t | None => [] end)) + 3 * na)%nat.
+  Proof.
+    intros R I. destruct (reachable_inv3 cf R) as [IC _]. specialize (IC s d m I).
+    destruct m as [k|t|t]; simpl in *; [lia| |].
+    - destruct IC as (_ & RQ & _). pose proof (rq_len _ RQ).
+      assert (M : (mu (t_visited t) (t_paths t) <= 2 * na + List.length (t_paths t))%nat).
+      { unfold mu. pose proof (nh_le_length (t_paths t)). lia. }
+      pose proof (Nat.mul_le_mono_l _ _ W M). lia.
+    - destruct IC as (_ & RQ & _). pose proof (rq_len _ RQ).
+      assert (M : (mu (t_visited t) (t_paths t) <= 2 * na + List.length (t_paths t))%nat).
+      { unfold mu. pose proof (nh_le_length (t_paths t)). lia. }
+      pose proof (Nat.mul_le_mono_l _ _ W M). lia.
+  Qed.
+
+  (* the tokens created by replicate(k) start below a bound that only depends on the number of
+     agents: with the variant, a token makes fewer than W * 2n + 2n = O(n^2) hops *)
+  Definition Phi0 : nat := (W * (2 * na) + 2 * na)%nat.
+
+  Lemma nh_initial me : nh (psort (map (fun nr => (snd nr, [me; fst nr])) (neighbors C me))) = 0%nat.
+  Proof.
+    assert (G : forall l, (forall e, In e l -> hostingp (snd e) = false) -> nh l = 0%nat).
+    { unfold nh. induction l as [|e r IH]; simpl; intros H; auto. rewrite (H e (or_introl eq_refl)). apply IH.
+      intros e' He'. apply H. right; auto. }
+    apply G. intros e He. apply (proj1 (psort_In _ _)) in He. apply in_map_iff in He as [[n r] [<- Hn]].
+    simpl. apply neighbors_pos in Hn. unfold hostingp, last_z, HOSTING. simpl. lia.
+  Qed.
+
+  Lemma replicate_loop_Phi0 me k : is_agent C me = true -> forall comps s outs evs,
+    (forall d m, In (d, m) outs -> (Phi m < Phi0)%nat) ->
+    forall d m, In (d, m) (snd (fst (fst (replicate_loop C me k comps s outs evs)))) -> (Phi m < Phi0)%nat.
+  Proof.
+    intros Ame. induction comps as [|x rest IH]; intros s outs evs HO d m; simpl; [apply HO|].
+    pose proof (initial_tinv me Ame) as TI. pose proof (nh_initial me) as NH0. set (paths := psort _) in *.
+    destruct paths as [|[c0 q0] r0] eqn:Ep; [apply HO|]. rewrite <- Ep in *.
+    assert (RQ : rq_ok [me]).
+    { split; [constructor; [intros []|constructor]|]. split; [discriminate|]. intros y [<-|[]]. exact Ame. }
+    assert (EX : exists e, In e paths /\ is_prefix [me] (snd e) = true /\ fst e <= min_cost r0 c0 + 0).
+    { destruct (min_entry c0 q0 r0) as (cost & p & Ip & Le). rewrite <- Ep in Ip. exists (cost, p). split; auto.
+      split; [|simpl; lia]. destruct TI as (_ & _ & D & _). destruct (D _ Ip) as (_ & _ & _ & (tl & Etl)).
+      simpl in *. rewrite Etl. simpl. rewrite Z.eqb_refl. reflexivity. }
+    pose proof (on_request_var me s (min_cost r0 c0) 0 [me] paths [me] (comp_name x) (comp_fp x) k [] evs TI RQ
+                  (fun y (H : In y []) => False_ind _ H) EX) as OR.
+    destruct (on_request C me s (min_cost r0 c0) 0 [me] paths [me] (comp_name x) (comp_fp x) k [] evs) as [[[s1 o1] e1] raised].
+    simpl in OR.
+    assert (HO' : forall d0 m0, In (d0, m0) (outs ++ o1) -> (Phi m0 < Phi0)%nat).
+    { intros d0 m0 I. apply in_app_or in I as [I|I]; [apply (HO d0 m0 I)|]. destruct (OR d0 m0 I) as [_ B].
+      unfold mu in B. rewrite NH0 in B. simpl in B. unfold Phi0.
+      assert (M : (2 * (na - 1) + 0 <= 2 * na)%nat) by lia. pose proof (Nat.mul_le_mono_l _ _ W M). lia. }
+    destruct raised; simpl; [apply HO'|apply IH; exact HO'].
+  Qed.
+
+  Lemma replicate_Phi0 me s k : is_agent C me = true ->
+    forall d m, In (d, m) (snd (fst (fst (replicate C me s k)))) -> (Phi m < Phi0)%nat.
+  Proof.
+    intros Ame. unfold replicate. destruct (a_comps (agent C me)) as [|x0 r0]; [intros d m []|].
+    destruct (neighbors C me) eqn:En; [intros d m []|].
+    apply replicate_loop_Phi0; auto. intros d m [].
+  Qed.
+
+  (* every token in flight is below the initial bound *)
+  Lemma recv_Phi0 n s src m : mok3 n m -> (Phi m < Phi0)%nat ->
+    forall d m', In (d, m') (snd (fst (ucs_recv C n s src m))) -> (Phi m' < Phi0)%nat.
+  Proof.
+    intros MO B d m' I. destruct (tok_of m) as [t|] eqn:T.
+    - destruct (ucs_recv_var n s src m MO d m' I) as [_ H]. specialize (H t T). lia.
+    - destruct m as [k|t|t]; simpl in T; try discriminate. unfold ucs_recv in I.
+      destruct (is_agent C n) eqn:Ea; cbn [negb] in I; cbv beta iota in I; [|destruct I].
+      pose proof (replicate_Phi0 n s k Ea d m') as R.
+      destruct (replicate C n s k) as [[[s' o] e] b]. simpl in *. auto.
   Qed.
 End Variant.
